@@ -296,3 +296,5 @@ def run(rep, cov, tier):
     c1(rep, cov, tier)
     c2(rep, cov, tier)
     c3(rep, cov, tier)
+    import clipos
+    clipos.cross_command_positions(rep, cov)
